@@ -439,3 +439,18 @@ def run(ctx: Context) -> None:  # noqa: F811
 
     ctx.rep.rule('C06.R8', 'leaving `with pool:` closes the pool unconditionally; httpcore.request()/stream() run inside such a scope')
     support.pool_scope_closes(ctx, 'C06.R8')
+
+
+
+_core_run_r9 = run
+
+
+def run(ctx: Context) -> None:  # noqa: F811
+    _core_run_r9(ctx)
+    if ctx.rep._borrow is not None:
+        return          # already running as a lender: no chains
+    from . import c04
+
+    with ctx.rep.borrow({"C04.R4": ("C06.R9", "a connection is marked failed only when its establishment has finally failed: one that is flagged while it is still connecting / retrying looks "
+                                              "closed, the pool forgets it without closing anything, and the stream it opens afterwards is owned by nobody and never closed:")}):
+        c04.run(ctx)
